@@ -455,8 +455,25 @@ func generate(dir string, thorough bool) []mutant {
 			out = append(out, mutant{name: fmt.Sprintf("%s:duplicate%s#%d", bn, s.path, s.idx), top: mutateAt(b, s, func(m *[]kv, i int) {
 				*m = append(*m, kv{(*m)[i].k, clone((*m)[i].v)})
 			})})
-			for _, nv := range []any{"abc", `"7"`, "-1", "1.5", "0", "1", "4294967296", "18446744073709551615", "18446744073709551616", "~", "true", []any{"1", "2"}, []kv{{"x", "1"}}, "0x10", "1e3"} {
+			keyAt := ""
+			walk(clone(b), "", func(m *[]kv, path string) {
+				if path == s.path && s.idx < len(*m) {
+					keyAt = (*m)[s.idx].k
+				}
+			})
+			for _, nv := range []any{"abc", `"7"`, "-1", "1.5", "0", "1", "255", "256", "257", "512", "65535", "65536", "4294967295", "4294967296", "18446744073709551615", "18446744073709551616", "~", "true", []any{"1", "2"}, []kv{{"x", "1"}}, "0x10", "1e3"} {
 				nv := nv
+				if sv, ok := nv.(string); ok && (keyAt == "memory" || keyAt == "time" || keyAt == "length" || keyAt == "cost" || keyAt == "r" || keyAt == "p") {
+					// values whose cost exceeds the sandbox are outside the explored bound (section 7)
+					if n, isU := isUint(sv); isU && n > 65536 {
+						continue
+					}
+					if (keyAt == "cost" || keyAt == "r" || keyAt == "p") && len(sv) > 2 && sv[0] >= '1' && sv[0] <= '9' {
+						if n, isU := isUint(sv); isU && n > 14 {
+							continue
+						}
+					}
+				}
 				out = append(out, mutant{name: fmt.Sprintf("%s:retype%s#%d=%v", bn, s.path, s.idx, nv), top: mutateAt(b, s, func(m *[]kv, i int) {
 					(*m)[i].v = clone(nv)
 				})})
